@@ -28,19 +28,19 @@ func BuildDeps(val xmlparse.XMLNode) []core_domain.CodeDependency {
 			node := depValue.Val.(xmlparse.XMLNode)
 			if node.Name == "groupId" {
 				for _, textNode := range node.Elements {
-					dependency.GroupId = textNode.Val.(string)
+					dependency.GroupId += textNode.Val.(string)
 				}
 			}
 
 			if node.Name == "artifactId" {
 				for _, textNode := range node.Elements {
-					dependency.ArtifactId = textNode.Val.(string)
+					dependency.ArtifactId += textNode.Val.(string)
 				}
 			}
 
 			if node.Name == "scope" {
 				for _, textNode := range node.Elements {
-					dependency.Scope = textNode.Val.(string)
+					dependency.Scope += textNode.Val.(string)
 				}
 			}
 		}
